@@ -78,6 +78,7 @@ type world struct {
 	hsWrites int // number of client writes made by the handshake
 	events   []streamEv
 	fateOf   map[string]string
+	stallRow map[string]string // fate stall: the (long) row the request's own complete response carries
 	reserved int
 	wrecs    *[]gocql.VerifWriteRec
 }
@@ -199,7 +200,8 @@ func (w *world) handler(n *vnode.Node, sc *vnode.ServerConn, rec *vnode.ReqRec) 
 				tail = append(tail, enc.Bytes()...)
 			}
 		}
-		enc, err := frame.Encode(&frame.Response{Version: rec.Req.Header.Version, Stream: rec.Stream, Msg: vnode.TextRows("t", label+"|"+string(tail))})
+		w.stallRow[label] = label + "|" + string(tail)
+		enc, err := frame.Encode(&frame.Response{Version: rec.Req.Header.Version, Stream: rec.Stream, Msg: vnode.TextRows("t", w.stallRow[label])})
 		if err != nil {
 			panic(err)
 		}
@@ -341,7 +343,7 @@ func (c *cfgT) body(prop string) {
 	gocql.VerifResetGlobals()
 	gocql.TimeoutLimit = c.timeoutLimit
 	vatomic.Yield = false // the stream-id allocator's atomic steps are explored by C08
-	w := &world{cfg: c, prop: prop, fateOf: map[string]string{}}
+	w := &world{cfg: c, prop: prop, fateOf: map[string]string{}, stallRow: map[string]string{}}
 	w.node = vnode.New("n1", net.IPv4(10, 0, 0, 1), 9042, vnode.Basic(w.handler))
 	client, server := vnet.Pipe("c0", &net.TCPAddr{IP: net.IPv4(10, 0, 0, 9), Port: 40000}, w.node.Addr)
 	client.Log = &w.wlog
@@ -467,10 +469,15 @@ func (w *world) checkC01(got []result) {
 		switch {
 		case r.op == "b":
 		case r.err == nil:
-			if len(r.rows) != 1 || r.rows[0] != r.label {
-				vs.Failf("c01:misdelivered-rows", "caller of %q received rows %v (fate %q)", r.label, r.rows, fate)
+			want := r.label
+			if fate == "stall" {
+				// a stall cut short by a timer deviation is just a slow reply: the caller then gets its own (long) row
+				want = w.stallRow[r.label]
 			}
-			if fate != "" && fate != "reply" && fate != "late" {
+			if len(r.rows) != 1 || r.rows[0] != want {
+				vs.Failf("c01:misdelivered-rows", "caller of %q received rows %.60q (fate %q)", r.label, r.rows, fate)
+			}
+			if fate != "" && fate != "reply" && fate != "late" && fate != "stall" {
 				vs.Failf("c01:rows-without-reply", "caller of %q received rows although the node's fate for it was %q", r.label, fate)
 			}
 		case cls == "server-error":
